@@ -7,7 +7,7 @@ from harness import c14_acct, c14_dense, c14_sched
 PROP = 'C14'
 MODEL_MODULES = ['TenpyModel.Util.J', 'TenpyModel.C14.Trotter', 'TenpyModel.C14.Accounting',
                  'TenpyModel.Gen.C14Trotter']
-PROPS_MODULES = ['TenpyModel.C14.PropsSchedule', 'TenpyModel.C14.PropsCompose', 'TenpyModel.C14.PropsAccounting']
+PROPS_MODULES = ['TenpyModel.C14.PropsSchedule', 'TenpyModel.C14.PropsCompose', 'TenpyModel.C14.PropsAccounting', 'TenpyModel.C14.Props2']
 LEAN_MODULES = PROPS_MODULES
 LEVEL = 'proof'
 BUDGET = {'quick': 220, 'thorough': 1500}
